@@ -340,7 +340,14 @@ def gen_varint_arms(repo):
     via = re.search(r"\blet\s+(\w+)\s*(?::\s*u32\s*)?=\s*" + sel + r"\s*;", bs)
     via = via and re.search(r"required_bits\s*(?::\s*u32\s*)?=\s*i64::BITS\s*-\s*" + re.escape(via.group(1)) + r"\s*;", bs)
     n_sel = len(re.findall(r"leading_zeros|leading_ones", bs))
-    if not ((direct or via) and n_sel == 2 and len(re.findall(r"required_bits\s*\+=\s*1\s*;", bs)) == 1
+    # the sign bit is added by a separate `required_bits += 1;` or in the same expression: `i64::BITS - <selection> + 1`
+    # (`-` and `+` associate to the left: it is `(i64::BITS - <selection>) + 1`, the modelled value)
+    direct1 = re.search(r"required_bits\s*(?::\s*u32\s*)?=\s*i64::BITS\s*-\s*" + sel + r"\s*\+\s*1\s*;", bs)
+    via1 = re.search(r"\blet\s+(\w+)\s*(?::\s*u32\s*)?=\s*" + sel + r"\s*;", bs)
+    via1 = via1 and re.search(r"required_bits\s*(?::\s*u32\s*)?=\s*i64::BITS\s*-\s*" + re.escape(via1.group(1)) + r"\s*\+\s*1\s*;", bs)
+    in_one = bool((direct1 or via1) and n_sel == 2 and not re.search(r"required_bits\s*\+=", bs)
+                  and len(re.findall(r"\brequired_bits\s*[-+*/|&^]?=(?!=)", bs)) == 1)
+    if not in_one and not ((direct or via) and n_sel == 2 and len(re.findall(r"required_bits\s*\+=\s*1\s*;", bs)) == 1
             and len(re.findall(r"\brequired_bits\s*[-+*/|&^]?=(?!=)", bs)) == 2):
         raise ExtractionError(T, rel, "encode_varint: required_bits computation has an unexpected shape")
     sarms, sshift = enc_arms("encode_varint", "i64")
@@ -793,11 +800,13 @@ def gen_emit_format(repo):
     src = read(repo, rel, T)
     EM = r"DiagnosticEmitter"
     jbody = fn_body(src, "emit_diagnostics_in_json", T, rel, EM)
-    m = re.search(r'serialize_struct\(\s*"Diagnostic"\s*,\s*(\d+)\s*\)', jbody)
+    # the announced number of fields: a literal or a named constant of the file / the function
+    m = re.search(r'serialize_struct\(\s*"Diagnostic"\s*,\s*(' + INT_OR_CONST + r')\s*\)', jbody)
     if not m:
         raise ExtractionError(T, rel, "serialize_struct(\"Diagnostic\", n) not found")
+    announced = int_or_const(src, m.group(1), T, rel, "serialize_struct(\"Diagnostic\", n)", jbody)
     keys = re.findall(r'\.serialize_field\(\s*"([^"\\]*)"', jbody)
-    if len(keys) != int(m.group(1)) or not keys:
+    if len(keys) != announced or not keys:
         raise ExtractionError(T, rel, f"{len(keys)} serialize_field calls for a struct announced with {m.group(1)} fields")
     # the SerializeStruct local, under whatever name: `let mut <st> = <serializer>.serialize_struct("Diagnostic", n)?;`
     st = re.escape(local_bound_to(jbody, r'\w+\.serialize_struct\(\s*"Diagnostic"', "the local bound to serialize_struct(\"Diagnostic\", n)", T, rel))
@@ -1018,6 +1027,10 @@ def _split_alternatives(body, T, rel, name):
     return alts
 
 
+PREPROC_PRODUCTION_ORDER = ("SliceFile", "BlockContent", "Node", "DefineDirective", "UndefineDirective", "IfDirective", "ElifDirective",
+                            "ElseDirective", "EndifDirective", "Conditional", "Expression", "Term")     # = `modelGrammar` of Props/C06.lean
+
+
 def gen_preproc_tables(repo):
     T = "Preproc"
     # (i) the keyword match of the lexer
@@ -1112,6 +1125,12 @@ def gen_preproc_tables(repo):
         prods.append((name, rows))
     if re.sub(r"\s+", "", rest[pos:]):
         raise ExtractionError(T, rel2, f"text after the last production not understood: {rest[pos:].strip()[:40]}")
+    # The order of the items of a LALRPOP grammar carries no meaning (the parser is generated from the set of productions): the
+    # productions the model knows are emitted in the model's order, any other one after them in source order (a new nonterminal
+    # is a changed grammar and re-opens the obligation anyway). A nonterminal defined twice is not reordered.
+    if len({n for n, _ in prods}) == len(prods):
+        rank = {n: i for i, n in enumerate(PREPROC_PRODUCTION_ORDER)}
+        prods = sorted(prods, key=lambda pr: rank.get(pr[0], len(rank)))      # stable: unknown names keep their source order
     names = [n for n, _ in prods]
     for need in ("SliceFile", "Node", "Conditional", "Expression", "Term"):
         if need not in names:
@@ -1249,6 +1268,12 @@ def gen_panic_sites(repo):
 
     def renaming(a, b, sigma):
         """extend sigma so that a, renamed, reads like b (both are key texts, cut at 90 characters); None if impossible"""
+        # whether a closure parameter / pattern binds a reference (`|i| .. [*i]`, `Some(i) => .. [*i]`) or the value behind it
+        # (`|&i| .. [i]`, `Some(&i) => .. [i]`) does not change what the indexed / unwrapped expression is
+        def plain(t):
+            t = re.sub(r"(^|[^\w)\]\s])\s*\*(?=[a-z_])", r"\1", t)
+            return re.sub(r"([|(,]\s*)&(?=[a-z_]\w*\s*[|),])", r"\1", t)
+        a, b = plain(a), plain(b)
         ta, tb = re.findall(r"[A-Za-z_]\w*|\S", a), re.findall(r"[A-Za-z_]\w*|\S", b)
         n = min(len(ta), len(tb))
         if len(a) >= 90 or len(b) >= 90:
@@ -1273,9 +1298,36 @@ def gen_panic_sites(repo):
     gone = [k for k in ledger if k not in present]                # in ledger (= source) order
     fresh_all = [k for k in keys if k not in ledger]
 
+    def only_called_from(rel_, helper, caller):
+        """`helper` is a fn of this file that is not `pub` and every call of it, anywhere in slicec/src, stands in the body of
+        `caller` (a fn of the same file): a site that moved between the two is reached in the same context as before"""
+        if helper in ("-", caller) or caller == "-":
+            return False
+        try:
+            src_ = strip_test_modules(read(repo, rel_, T))
+        except ExtractionError:
+            return False
+        if len(_fn_items(src_, helper)) != 1 or not fn_exists(rel_, caller):
+            return False
+        if re.search(r"\bpub\b[^;{}]*\bfn\s+" + re.escape(helper) + r"\b", src_):
+            return False
+        call = re.compile(r"(?<!\bfn\s)(?<![\w])" + re.escape(helper) + r"\s*(?:::\s*<[^>]*>\s*)?\(")
+        uses_in_file = len([m for m in call.finditer(src_) if not re.search(r"\bfn\s+$", src_[:m.start()])])
+        uses_in_caller = len([m for m in call.finditer(fn_text(rel_, caller)) if not re.search(r"\bfn\s+$", fn_text(rel_, caller)[:m.start()])])
+        if uses_in_file == 0 or uses_in_file != uses_in_caller:
+            return False
+        for dirpath_, _d, files_ in os.walk(base):
+            for f_ in files_:
+                other = os.path.relpath(os.path.join(dirpath_, f_), repo)
+                if f_.endswith(".rs") and other != rel_ and call.search(read(repo, other, T)):
+                    return False
+        return True
+
     def same_fn(g, k):
-        """same enclosing fn, or the old fn no longer exists in the file (it was renamed)"""
-        return parts(g)[1] == parts(k)[1] or not fn_exists(parts(g)[0], parts(g)[1])
+        """same enclosing fn, or the old fn no longer exists in the file (it was renamed), or the site moved into a private helper
+        that only its old fn calls (a helper was extracted), or from such a helper into its only caller (it was inlined)"""
+        return parts(g)[1] == parts(k)[1] or not fn_exists(parts(g)[0], parts(g)[1]) \
+            or only_called_from(parts(k)[0], parts(k)[1], parts(g)[1]) or only_called_from(parts(k)[0], parts(g)[1], parts(k)[1])
 
     def inherit(pairs):
         for g, k in pairs:
@@ -1859,12 +1911,23 @@ def gen_lints(repo):
         raise ExtractionError(T, rel3, f"into_updated: parameters (ast, files, options) expected, found {upd_params}")
     # Everything below is compared up to the names of locals, parameters and closure parameters, layout, field shorthand and
     # single-use locals (translator/rustcanon.py); what is expected is written as Rust source next to it.
-    by_params, by_body = fn_item(upd, "is_lint_allowed_by", T, rel3)
+    # the two helpers are nested fns of into_updated or private free fns of the file (an item can be hoisted out of a body without
+    # changing anything: a nested fn captures nothing)
+    def helper_item(name):
+        if re.search(r"\bfn\s+" + re.escape(name) + r"\b", upd):
+            return fn_item(upd, name, T, rel3)
+        return fn_item(dsrc, name, T, rel3)
+    by_params, by_body = helper_item("is_lint_allowed_by")
     by_names = rustcanon.param_names(by_params)
     EXACT = 'identifiers.any(|identifier| identifier == "HOLE1" || identifier == lint.code())'
     FOLD = 'identifiers.any(|identifier| identifier.eq_ignore_ascii_case("HOLE1") || identifier.eq_ignore_ascii_case(lint.code()))'
-    mexact = rustcanon.match(by_body, EXACT, by_names, ["identifiers", "lint"]) if len(by_names) == 2 else None
-    mfold = rustcanon.match(by_body, FOLD, by_names, ["identifiers", "lint"]) if len(by_names) == 2 else None
+    # `lint.code()` has no effect and does not depend on the identifier: it may be taken out of the closure into a local
+    EXACT_HOISTED = 'let code = lint.code(); identifiers.any(|identifier| identifier == "HOLE1" || identifier == code)'
+    FOLD_HOISTED = 'let code = lint.code(); identifiers.any(|identifier| identifier.eq_ignore_ascii_case("HOLE1") || identifier.eq_ignore_ascii_case(code))'
+    mexact = (rustcanon.match(by_body, EXACT, by_names, ["identifiers", "lint"])
+              or rustcanon.match(by_body, EXACT_HOISTED, by_names, ["identifiers", "lint"])) if len(by_names) == 2 else None
+    mfold = (rustcanon.match(by_body, FOLD, by_names, ["identifiers", "lint"])
+             or rustcanon.match(by_body, FOLD_HOISTED, by_names, ["identifiers", "lint"])) if len(by_names) == 2 else None
     if mexact:
         all_kw, ignore_case = mexact[0], False
     elif mfold:
@@ -1873,7 +1936,7 @@ def gen_lints(repo):
         raise ExtractionError(T, rel3, "is_lint_allowed_by: comparison not understood: " + re.sub(r"\s+", "", by_body)[:120])
     if all_kw not in lits:
         raise ExtractionError(T, rel3, f"the catch-all identifier `{all_kw}` is not an allowable identifier")
-    bya_params, bya_body = fn_item(upd, "is_lint_allowed_by_attributes", T, rel3)
+    bya_params, bya_body = helper_item("is_lint_allowed_by_attributes")
     bya = rustcanon.canon(bya_body, rustcanon.param_names(bya_params))          # $1 = the attributable, $2 = the lint
     if not (re.search(r"\$1\.all_attributes\(\)", bya) and re.search(r"\.filter_map\(\|(\$\d+)\|\1\.downcast::<attributes::Allow>\(\)\)", bya)
             and re.search(r"\.any\(\|(\$\d+)\|is_lint_allowed_by\(\1\.allowed_lints\.iter\(\),\$2\)\)", bya)):
@@ -1979,7 +2042,9 @@ def gen_lints(repo):
     # construct_lint_from creates MalformedDocComment without scope; the scope is attached by its (only) caller
     sites = [s for s in sites if not (s[1] == "parsers/comments/mod.rs" and s[0] == "MalformedDocComment")]
     psrc = read(repo, "slicec/src/parsers/comments/mod.rs", T)
-    if len(re.findall(r"Lint::MalformedDocComment", psrc)) != 3 or "set_scope" in psrc:
+    # however many times the constructor is written (once per error case, or once after a match that computes the message):
+    # every lint this file creates is a MalformedDocComment and none of them is given a scope here
+    if set(re.findall(r"\bLint::(\w+)", psrc)) != {"MalformedDocComment"} or "set_scope" in psrc:
         raise ExtractionError(T, "slicec/src/parsers/comments/mod.rs", "construct_lint_from has an unexpected shape")
     relr = "slicec/src/parsers/slice/grammar.rs"
     grs = read(repo, relr, T)
@@ -2213,11 +2278,41 @@ def gen_comment_keywords(repo):
     # `let <inline> = self.mode == LexerMode::InlineTag;` and `let <valid> = match <kind> { TokenKind::X | .. => [!]<inline>, .. }`:
     # the three locals are found by what they are bound to, under whatever names
     inl = re.escape(local_bound_to(body, r"self\.mode\s*==\s*LexerMode::InlineTag\s*;", "`let <inline> = self.mode == LexerMode::InlineTag;`", T, rel))
+    def validity_match(text, flag):
+        found = None
+        for m in re.finditer(r"\bmatch\s+\*?\w+\s*(?=\{)", text):
+            blk = block_after(text, m.end())
+            if blk is not None and re.search(r"TokenKind::\w+\s*=>\s*!?\s*" + flag + r"\b", blk):
+                found = blk
+        return found
     vbody = None
     for m in re.finditer(r"\blet\s+\w+\s*=\s*match\s+\*?\w+\s*(?=\{)", body):
         blk = block_after(body, m.end())
         if blk is not None and re.search(r"TokenKind::\w+\s*=>\s*!?\s*" + inl + r"\b", blk):
             vbody = blk
+    if vbody is None:
+        # the match was moved into a helper method of the lexer to which <inline> is passed (`Self::h(kind, <inline>)`,
+        # `self.h(kind, <inline>)`) and whose result is tested in read_tag_keyword: it is read there, <inline> being the helper's
+        # parameter in the same position
+        for cm in re.finditer(r"\b(?:self\s*\.\s*|Self\s*::\s*)(\w+)\s*\(", body):
+            args = block_after(body, cm.end() - 1, "(", ")")
+            if args is None:
+                continue
+            argl = [a.strip() for a in split_top(args) if a.strip()]
+            if argl.count(re.sub(r"\\", "", inl)) != 1:
+                continue
+            try:
+                hparams, hbody = fn_item(src, cm.group(1), T, rel, r"Lexer")
+            except ExtractionError:
+                continue
+            hnames = rustcanon.param_names(hparams)
+            if len(hnames) != len(argl):
+                continue
+            hflag = re.escape(hnames[argl.index(re.sub(r"\\", "", inl))])
+            blk = validity_match(hbody, hflag)
+            if blk is not None:
+                vbody, inl = blk, hflag
+                break
     if vbody is None:
         raise ExtractionError(T, rel, "validity match `let <valid> = match <kind> { TokenKind::X => [!]<inline>, .. }` not found")
     inline = {}
@@ -2421,7 +2516,20 @@ def gen_encoder_shapes(repo):
         raise ExtractionError(T, rel2, "the operation name is not encoded first")
     if len(re.findall(enc + r"\.encode", body)) != 3 or not body.endswith("Ok(%s)" % encs[0][1]):
         raise ExtractionError(T, rel2, "encode_generate_code_request: something else is encoded, or the buffer is not what is returned")
-    lp = re.search(r"for " + V + r" in \$1\{", body)
+    # the loop runs over the parsed files: `parsed_files`, `&parsed_files`, `parsed_files.iter()`, or the same filtered by
+    # `.filter(|f| f.module.is_some())` (the skip of module-less files written as a filter instead of `continue`), given to `for`
+    # directly or through a local bound by the statement before it
+    lp = re.search(r"for " + V + r" in ([^{};]+)\{", body)
+    filter_skips = False
+    if lp:
+        it = lp.group(2)
+        via_local = re.fullmatch(r"\$\d+", it) and it != "$1" and re.search(r"let " + re.escape(it) + r"=([^;{}]+);for " + re.escape(lp.group(1)) + " in ", body)
+        if via_local:
+            it = via_local.group(1)
+        if re.fullmatch(r"\$1\.iter\(\)\.filter\(\|(\$\d+)\|\1\.module\.is_some\(\)\)", it):
+            filter_skips = True
+        elif not re.fullmatch(r"&?\$1|\$1\.iter\(\)", it):
+            lp = None
     cv = lp and re.search(r"let " + V + r"=definition_types::SliceFile::from\(" + re.escape(lp.group(1)) + r"\);", body)
     if not lp or not cv:
         raise ExtractionError(T, rel2, "the conversion loop `for parsed_file in parsed_files { … SliceFile::from(parsed_file) … }` not found")
@@ -2443,6 +2551,7 @@ def gen_encoder_shapes(repo):
     n_cont = len(re.findall(r"\bcontinue\b", body))
     if n_cont != (1 if skips else 0):
         raise ExtractionError(T, rel2, "an unexpected `continue` in the conversion loop")
+    skips = skips or filter_skips
     order = ["sources" if c == routing[0] else "references" if c == routing[1] else "?" for c in seq_calls]
     if "?" in order:
         raise ExtractionError(T, rel2, "the encoded vectors are not the ones filled by the is_source match")
@@ -2804,6 +2913,20 @@ def gen_comment_sanitize(repo):
     T, rel = "CommentSanitize", "slicec/src/parsers/comments/grammar.rs"
     src = read(repo, rel, T)
     body = fn_body(src, "sanitize_message_lines", T, rel)
+    # the computation of the common indentation may live in private free functions of this file that sanitize_message_lines calls
+    # (`let common = helper(&lines);`): their bodies are read in place of the calls, two levels deep
+    for _level in range(2):
+        pieces, at = [], 0
+        for cm in re.finditer(r"(?<![\w.:])([a-z_]\w*)\s*\(", body):
+            if cm.start() < at or cm.group(1) == "sanitize_message_lines":
+                continue
+            items = [it for it in _fn_items(src, cm.group(1)) if it[0] == 0]
+            cargs = block_after(body, cm.end() - 1, "(", ")")
+            if len(items) != 1 or cargs is None or re.search(r"\bfn\s+$", body[:cm.start()]):
+                continue
+            pieces.append(body[at:cm.start()] + "{" + items[0][2] + "}")
+            at = cm.end() + len(cargs) + 1
+        body = "".join(pieces) + body[at:]
     # a test that is first bound to a local used nowhere else (`let b = <test>; if b {`) reads like `if <test> {`
     for lm in list(re.finditer(r"\blet\s+(\w+)\s*(?::\s*bool\s*)?=(?!=)\s*([^;{}]+);\s*if\s+(\w+)\s*\{", body)):
         if lm.group(1) == lm.group(3) and len(re.findall(r"\b" + re.escape(lm.group(1)) + r"\b", body)) == 2:
@@ -2834,7 +2957,9 @@ def gen_comment_sanitize(repo):
         "count": re.search(r"\w+\.chars\(\)\s*\.take_while\(\s*" + wsp + r"\s*\)\s*\.count\(\)", body),
         "skip": re.search(r"if\s+(?:\w+\.len\(\)\s*==\s*1\s*&&\s*(?:\w+\s*==\s*" + cnt + "|" + cnt + r"\s*==\s*\w+)"
                           r"|(?:\w+\s*==\s*" + cnt + "|" + cnt + r"\s*==\s*\w+)\s*&&\s*\w+\.len\(\)\s*==\s*1)\s*\{\s*continue\s*;\s*\}", body),
-        "normalise": re.search(r"if\s+(\w+)\s*==\s*usize::MAX\s*\{\s*\1\s*=\s*0\s*;\s*\}", body),
+        "normalise": re.search(r"if\s+(\w+)\s*==\s*usize::MAX\s*\{\s*\1\s*=\s*0\s*;\s*\}", body)
+                     or re.search(r"if\s+(\w+)\s*==\s*usize::MAX\s*\{\s*0\s*\}\s*else\s*\{\s*\1\s*\}", body)
+                     or re.search(r"if\s+(\w+)\s*!=\s*usize::MAX\s*\{\s*\1\s*\}\s*else\s*\{\s*0\s*\}", body),
         "strip": len(strips) == 1 and char_boundary(strips[0]),
     }
     old = {
